@@ -208,7 +208,8 @@ def generate(rng, tier):
         fpm = py_fp(mk)
         if quick and i not in (47, 78, 280):
             continue
-        A("xprv.seed_path", [TV1, T("m/%dh/1" % i)])              # normal child below it: parent key / fingerprint in the data
+        A("xprv.seed_path", [TV1, T("m/%dh/1" % i)])              # normal child below it: parent public key / fingerprint in the data
+        A("xprv.seed_path", [TV1, T("m/%dh/1H" % i)])             # hardened child below it: parent private key in the data
         A("xprv.from_string", [T(b58check(payload_priv(ki, ci, 1, H + i, fpm)))])
         A("xpub.from_string", [T(b58check(payload_pub(ser_pub(ec_mul(ki, G)), ci, 1, H + i, fpm)))])
         A("xpub.derive", xpub_args(ser_pub(ec_mul(ki, G)), ci, 1, H + i, fpm) + ["1"])
